@@ -180,57 +180,60 @@ func c13v2Run(c c13v2Case, r *vg.Rand) (term, descr string) {
 		return out
 	}
 
+	ready := func(p p2p.ID) bool { return n.sc.peers[p] != nil && n.sc.peers[p].state == peerStateReady }
 	if c.liar {
 		n.status(liar, 1, c.tip)
 	}
 	if !c.honestLate || !c.liar {
 		n.status(honest, 1, c.tip)
 	}
-	// first round: the liar answers its first 1+extra requests (no processing in between: the
-	// blocks queue up in the processor), the honest peer all of its
 	reqs := n.schedule()
-	nl := 0
-	var hreqs []scBlockRequest
+	if c.honestLate && c.liar {
+		n.status(honest, 1, c.tip) // shows up after the first round of requests went out
+	}
+	// the liar's first 1+extra answers arrive back to back (they queue up in the processor),
+	// then the node processes
+	var lreqs, hreqs []scBlockRequest
 	for _, rq := range reqs {
 		if rq.peerID == liar {
-			if nl <= c.extra {
-				b := refStore.LoadBlock(rq.height)
-				if rq.height == 1 {
-					b = forged
-				}
-				n.deliver(liar, b)
-				journal = append(journal, fmt.Sprintf("liar answers %d", rq.height))
-			}
-			nl++
+			lreqs = append(lreqs, rq)
 		} else {
 			hreqs = append(hreqs, rq)
 		}
 	}
-	n.process()
-	if c.honestLate && c.liar {
-		n.status(honest, 1, c.tip)
+	for i, rq := range lreqs {
+		if i > c.extra {
+			break
+		}
+		b := refStore.LoadBlock(rq.height)
+		if rq.height == 1 {
+			b = forged
+		}
+		n.deliver(liar, b)
+		journal = append(journal, fmt.Sprintf("%d", rq.height))
 	}
+	n.process()
+	// the honest peer's answers, then the rest of the liar's (while it is still a peer)
 	for _, rq := range order(hreqs) {
-		if n.sc.peers[honest] != nil && n.sc.peers[honest].state == peerStateReady {
+		if ready(honest) {
 			answer(honest, rq.height)
 		}
 	}
-	// further rounds: whatever is asked of the honest peer is answered
+	for i, rq := range lreqs {
+		if i > c.extra && ready(liar) {
+			answer(liar, rq.height)
+		}
+	}
+	// further rounds: every request is answered by the peer it went to
 	for round := 0; round < 20 && n.finished == nil && n.crashed == ""; round++ {
 		reqs = n.schedule()
 		if len(reqs) == 0 {
 			n.process()
 			break
 		}
-		hreqs = nil
-		for _, rq := range reqs {
-			if rq.peerID == honest {
-				hreqs = append(hreqs, rq)
-			}
-		}
-		for _, rq := range order(hreqs) {
-			if n.sc.peers[honest] != nil && n.sc.peers[honest].state == peerStateReady {
-				answer(honest, rq.height)
+		for _, rq := range order(reqs) {
+			if ready(rq.peerID) {
+				answer(rq.peerID, rq.height)
 			}
 		}
 	}
@@ -245,7 +248,7 @@ func c13v2Run(c c13v2Case, r *vg.Rand) (term, descr string) {
 			canon = false
 		}
 	}
-	honestReady := n.sc.peers[honest] != nil && n.sc.peers[honest].state == peerStateReady
+	honestReady := ready(honest)
 	blamed := false // a block the honest peer supplied was part of a pair that failed verification
 	for _, f := range n.failures {
 		if f.firstPeerID == honest || f.secondPeerID == honest {
@@ -280,7 +283,7 @@ func c13v2Run(c c13v2Case, r *vg.Rand) (term, descr string) {
 	}
 	term = vg.App("CV2", vg.Z(c.tip), vg.Tup(vg.B(n.crashed != ""), vg.Z(stored), vg.B(canon), vg.B(dropped),
 		vg.B(honestReady), vg.B(n.finished != nil), vg.N(ho)))
-	descr = fmt.Sprintf("blockchain/v2, real scheduler + processor wired synchronously; chain of %d blocks (one validator); liar present=%v (answers the request for height 1 with a block of its own making, delivers 1+%d answers before the node processes: %v), honest peer [1,%d] known %s the first round of requests, its answers arrive in order %d (0 request order, 1 reverse, 2 PRNG). "+
+	descr = fmt.Sprintf("blockchain/v2, real scheduler + processor wired synchronously; chain of %d blocks (one validator); liar present=%v (answers the request for height 1 with a block of its own making, its first 1+%d answers arrive before the node processes: heights %v; it answers every other request with the real block), honest peer [1,%d] known %s the first round of requests, its answers arrive in order %d (0 request order, 1 reverse, 2 PRNG). "+
 		"Observed: crashed=%q, verification failures=%d, store height %d, all stored blocks canonical=%v, honest peer ready at the end=%v (blamed in a failed pair=%v), finished=%v, CommitToVoteSet on the last seen commit=%d (0 ok,1 panic/no +2/3,2 n/a)",
 		c.tip, c.liar, c.extra, journal, c.tip, map[bool]string{true: "after", false: "before"}[c.honestLate && c.liar], c.order,
 		n.crashed, len(n.failures), stored, canon, honestReady, blamed, n.finished != nil, ho)
